@@ -108,11 +108,28 @@ WinAfter(s, op, ok) ==
                                      \cup {<<Rebase(x, op.p, op.q), KindOf(t, x)>> : x \in mv}
                                      \cup (IF Has(t, op.q) THEN {<<op.q, KindOf(t, op.q)>>} ELSE {})]
 TypeTag(w) == IF \E s \in Sides : \E a, b \in w.kinds[s] : a[1] = b[1] /\ a[2] # b[2] THEN {"TYPE"} ELSE {}
-TagEffect(s, op, ok, nc, na) ==
+\* kinds of conflict between the two sides' changes of one window (trees = the two trees after the operation):
+\*   CF_FILEFILE both sides put a file at the path (create/create, edit/edit ...: the resolver's business)
+\*   CF_DIRDIR   both sides put a folder there      CF_TYPE  a file on one side, a folder on the other
+\*   CF_GONE     one side removed / moved away what the other side changed
+\*   CF_ANC      one side changed a path the other side's change depends on (an ancestor)
+KindAt(t, p) == IF ~Has(t, p) THEN 0 ELSE IF t[p] = DIR THEN 1 ELSE 2
+ConflictKinds(nc, na, trees) ==
+  LET X == (nc[1] \cap (nc[2] \cup na[2])) \cup (nc[2] \cap (nc[1] \cup na[1]))
+      K(p) == LET a == KindAt(trees[1], p)
+                  b == KindAt(trees[2], p)
+              IN IF ~(p \in nc[1] /\ p \in nc[2]) THEN "CF_ANC"
+                 ELSE IF a = 2 /\ b = 2 THEN "CF_FILEFILE"
+                 ELSE IF a = 1 /\ b = 1 THEN "CF_DIRDIR"
+                 ELSE IF a = 0 \/ b = 0 THEN "CF_GONE"
+                 ELSE "CF_TYPE"
+  IN {K(p) : p \in X}
+TagEffect(s, op, ok, nc, na, t2) ==
   /\ win' = WinAfter(s, op, ok)
   /\ tags' = tags \cup OpTags(s, op, ok) \cup TypeTag(WinAfter(s, op, ok))
                \cup (IF nc[1] # {} /\ nc[2] # {} THEN {"TWOSIDED"} ELSE {})
-               \cup (IF ~FootprintsDisjoint(nc, na) THEN {"CONFLICT"} ELSE {})
+               \cup (IF ~FootprintsDisjoint(nc, na)
+                     THEN {"CONFLICT"} \cup ConflictKinds(nc, na, [tr EXCEPT ![s] = t2]) ELSE {})
 
 UserEffect(s, op, t2) ==     \* t2 = tree of side s after the operation (applied)
   LET d   == Diff(tr[s], t2)
@@ -125,7 +142,7 @@ UserEffect(s, op, t2) ==     \* t2 = tree of side s after the operation (applied
      /\ exOK' = (exOK /\ eOK /\ FootprintsDisjoint(nc, na))
      /\ expect' = IF eOK THEN Apply(expect, op) ELSE expect
      /\ origin' = IF origin = 0 \/ origin = s THEN s ELSE 3
-     /\ TagEffect(s, op, TRUE, nc, na)
+     /\ TagEffect(s, op, TRUE, nc, na, t2)
 
 \* ---- engine calls: guards are the properties ---------------------------------------------------
 \* C02 LastCopy: removing/overwriting the cell at (s,p) must not destroy the last copy of a live version
